@@ -258,6 +258,22 @@ func runC11(c *Ctx) {
 				r.Add(core.Obligation{Rule: "ack", Key: fmt.Sprintf("ack section entry %d has an offer or lease", k+1), Func: core.FuncName(hr), Pos: c.P.Pos(core.PosOf(p.Instrs[len(p.Instrs)-1])), Status: st,
 					Basis: "entered under a test establishing State != Free", Detail: "the acknowledgement section can be entered with the lease in state Free (nothing offered, nothing leased): " + strings.Join(txt, " && ")})
 			}
+			// the last clause of C11 ("never acknowledges an address the session currently tracks for a different MAC"):
+			// from every entry of the acknowledgement section, the ACK is reached only past a look-up of the address in
+			// the session's host table
+			{
+				consults := func(j ssa.Instruction) bool {
+					cj, ok := j.(ssa.CallInstruction)
+					return ok && strings.HasSuffix(core.CalleeName(cj), "Session).FindIP")
+				}
+				st, det := core.Proved, ""
+				if len(hr.Blocks) > 0 && reachesWithout(hr.Blocks[0].Instrs[0], ackCall.(ssa.Instruction), consults) {
+					st = core.Violated
+					det = "the ACK is reached without a look-up of the address in the session's host table (only the commit of a new offer looks): a lease that is being confirmed (renewal, INIT-REBOOT, repeated select) is acknowledged although a frame from another station has meanwhile made the session track the address for that station's MAC"
+				}
+				r.Add(core.Obligation{Rule: "ack", Key: "ack every acknowledgement consults the session's host table", Func: core.FuncName(hr), Pos: c.P.Pos(core.PosOf(ackCall.(ssa.Instruction))), Status: st,
+					Basis: "session.FindIP on every path to the ACK", Detail: det})
+			}
 			yi := shortLease(norm(ackCall.Common().Args[5]))
 			st := core.Proved
 			if yi != "LEASE.Addr.IP" {
@@ -290,7 +306,7 @@ func runC11(c *Ctx) {
 					st = core.Violated
 				}
 				r.Add(core.Obligation{Rule: "ack", Key: "ack every acknowledgement renews the lease", Func: core.FuncName(hr), Pos: c.P.Pos(core.PosOf(ackCall.(ssa.Instruction))), Status: st,
-					Basis: "every path to the ACK passes lease.DHCPExpiry = time.Now().Add(lease.subnet.Duration) and lease.State = StateAllocated",
+					Basis:  "every path to the ACK passes lease.DHCPExpiry = time.Now().Add(lease.subnet.Duration) and lease.State = StateAllocated",
 					Detail: "some path reaches the ACK without setting the lease's expiry to now + the subnet's duration (or its state to Allocated): the client is told it holds the address for another lease time while the server's lease keeps its old expiry, is freed by the minute ticker and offered to the next client"})
 			}
 			// Addr.IP = IPOffer only under State == Discover
@@ -353,6 +369,7 @@ func runC11(c *Ctx) {
 			}
 		}
 	}
+	checkHolderLookup(c, "offer")
 	// (offer) two clients never hold offers for one address: the lookup that allocIPOffer relies on sees outstanding
 	// offers (IPOffer of a lease in state Discover), or the commit of an offer in handleRequest looks the address up again
 	{
@@ -487,6 +504,31 @@ func runC11(c *Ctx) {
 			}
 			r.Add(core.Obligation{Rule: "ack", Key: strings.TrimSuffix(kgd.Key("ack session update only on a path that does not end in a NAK"), "#0"), Func: core.FuncName(hr), Pos: c.P.Pos(core.PosOf(ins)), Status: st,
 				Basis: "no nakPacket reachable from the DHCPv4Update call", Detail: det})
+			// an update with an address other than the lease's own is a claim the client makes (a REQUEST to another
+			// server): it does not take the address away, in the session, from the client that holds it by our own ACK -
+			// the update is made only if the lease table has no lease for the address, this client's, or one not allocated
+			if a := site.Common().Args; len(a) >= 3 && !strings.HasSuffix(shortLease(norm(a[2])), "LEASE.Addr.IP") {
+				want := "(dhcp4_spoofer.Handler).findByIP(recv," + norm(a[2]) + ")"
+				var bad []string
+				dnf := pathDNFDeep(ins.Block())
+				for _, d := range dnf {
+					d2 := shortLease(d)
+					switch {
+					case strings.Contains(d2, "("+want+"==nil)") && !strings.Contains(d2, "!("+want+"==nil)"):
+					case strings.Contains(d2, "("+want+"==LEASE)") && !strings.Contains(d2, "!("+want+"==LEASE)"):
+					case strings.Contains(d2, "!("+want+".State==2)"), strings.Contains(d2, "("+want+".State!=2)") && !strings.Contains(d2, "!("+want+".State!=2)"):
+					default:
+						bad = append(bad, d2)
+					}
+				}
+				s3, d3 := core.Proved, ""
+				if len(dnf) == 0 || len(bad) > 0 {
+					s3 = core.Violated
+					d3 = "handleRequest tells the session that the requester has " + norm(a[2]) + " (the address it asks another server for) without looking at the lease table: if that address is acknowledged by us to another client, the session re-binds it to the requester, and the holder's next INIT-REBOOT is acknowledged while the session tracks the address for the other MAC. Paths: " + strings.Join(bad, "  |  ")
+				}
+				r.Add(core.Obligation{Rule: "ack", Key: "ack a claim made to another server does not re-bind an address we acknowledged", Func: core.FuncName(hr), Pos: c.P.Pos(core.PosOf(ins)), Status: s3,
+					Basis: "every path to the update: no lease for the address | this client's lease | a lease that is not allocated", Detail: d3})
+			}
 		}
 	}
 	// (offer) an old offer is not handed out again without going through allocIPOffer: on every path of handleDiscover to
